@@ -11,7 +11,7 @@ L = 'kfac.layers.base:KFACBaseLayer'
 # ---- interface contracts of the module helper used by the layer (abstract methods)
 contract('kfac.layers.modules:ModuleHelper.get_a_factor', props=['C04'], params={'a': T}, result=T, trusted=True,
          requires=[('a_present', 'a is not None')],
-         ensures=[('present', 'result is not None'), ('fresh', 'fresh_storage(result)'),
+         ensures=[('present', 'result is not None'), ('fresh', 'fresh_storage(result)'), ('square', 'is_square(result.shape)'),
                   ('function_of_input', 'val(result) == helper_a_factor(self, old(val(a)), old(a.shape))'),
                   ('dtype_follows_input', 'result.dtype is a.dtype and result.device is a.device'),
                   ('input_untouched', 'val(a) == old(val(a))')],
@@ -19,7 +19,7 @@ contract('kfac.layers.modules:ModuleHelper.get_a_factor', props=['C04'], params=
          note='interface: helper_a_factor(h, v, shape) names the value the concrete helper computes (proved per helper in c15_modules)')
 contract('kfac.layers.modules:ModuleHelper.get_g_factor', props=['C04'], params={'g': T}, result=T, trusted=True,
          requires=[('g_present', 'g is not None')],
-         ensures=[('present', 'result is not None'), ('fresh', 'fresh_storage(result)'),
+         ensures=[('present', 'result is not None'), ('fresh', 'fresh_storage(result)'), ('square', 'is_square(result.shape)'),
                   ('function_of_input', 'val(result) == helper_g_factor(self, old(val(g)), old(g.shape))'),
                   ('dtype_follows_input', 'result.dtype is g.dtype and result.device is g.device'),
                   ('input_untouched', 'val(g) == old(val(g))')],
@@ -63,6 +63,7 @@ contract(
                         '(helper_a_factor(self.module, old(val(input_[0])), old(input_[0].shape)) if old(self._a_batch) is None else '
                         'add(old(val(self._a_batch)), helper_a_factor(self.module, old(val(input_[0])), old(input_[0].shape))))'),
         ('counts', 'self._a_count == (1 if old(self._a_batch) is None else old(self._a_count) + 1)'),
+        ('stays_square', 'implies(old(self._a_batch) is None or is_square(old(self._a_batch.shape)), is_square(self._a_batch.shape))'),
         ('input_untouched', 'val(input_[0]) == old(val(input_[0])) and input_[0].shape == old(input_[0].shape)'),
         ('stored_in_factor_dtype', 'implies(self.factor_dtype is not None and old(self._a_batch) is None, self._a_batch.dtype is self.factor_dtype)'),
     ],
@@ -81,6 +82,7 @@ contract(
          '(helper_g_factor(self.module, scaled, old(grad_output[0].shape)) if old(self._g_batch) is None else '
          'add(old(val(self._g_batch)), helper_g_factor(self.module, scaled, old(grad_output[0].shape))))'),
         ('counts', 'self._g_count == (1 if old(self._g_batch) is None else old(self._g_count) + 1)'),
+        ('stays_square', 'implies(old(self._g_batch) is None or is_square(old(self._g_batch.shape)), is_square(self._g_batch.shape))'),
         ('grad_output_untouched', 'val(grad_output[0]) == old(val(grad_output[0]))'),
     ],
     modifies=['self._g_batch', 'self._g_count', 'ghost:next_sid'],
@@ -208,6 +210,8 @@ contract(
                        "and self._a_factor.shape == state_dict['A'].shape and self._a_factor.dtype is state_dict['A'].dtype)"),
         ('G_restored', "implies(state_dict['G'] is not None, is_tensor(self._g_factor) and val(self._g_factor) == old(val(state_dict['G'])) "
                        "and self._g_factor.shape == state_dict['G'].shape and self._g_factor.dtype is state_dict['G'].dtype)"),
+        ('shapes_from_state', "implies(state_dict['A'] is not None, self._a_factor.shape == state_dict['A'].shape) and "
+                              "implies(state_dict['G'] is not None, self._g_factor.shape == state_dict['G'].shape)"),
         ('absent_entries_keep_the_factor', "implies(state_dict['A'] is None, self._a_factor is old(self._a_factor)) and "
                                            "implies(state_dict['G'] is None, self._g_factor is old(self._g_factor))"),
     ],
